@@ -132,7 +132,7 @@ func TypedExprs() map[string][]string {
 			"i", "1", "-1", "0x10", "i + j", "i - j", "i * j", "i / j", "i % j", "-i", "i << 1", "i >> 1", "i | j", "i ^ j", "i & j",
 			"o ?? i", "o!", "b ? i : j", "arr[0]", "arr.length", "d[\"a\"] ?? 0", "st.n", "st.getN()", "helper(i, b: j)", "pureHelper(i)",
 			"st.foo(i)", "s.length", "(any as? Int) ?? 0", "any as! Int", "Int(u)", "st.dflt()", "st.dflt2()", "st.kk()",
-			"fun (x: Int): Int { return x + i }(j)", "st.opt ?? 0", "arr[i % 3]", "i.saturatingAdd(j)" + "",
+			"fun (x: Int): Int { return x + i }(j)", "st.opt ?? 0", "arr[i % 3]",
 		},
 		"Bool": {
 			"b", "true", "false", "b && c", "b || c", "!b", "i < j", "i <= j", "i > j", "i >= j", "i == j", "i != j", "s == t", "o == nil", "o != nil",
@@ -202,6 +202,11 @@ func typedFun(ret, body string) string {
 		return "access(all) fun main() {" + TypedVars + body + "\n}\n"
 	}
 	return "access(all) fun main(): " + ret + " {" + TypedVars + body + "\n}\n"
+}
+
+// typedFunParams: the variable pool as parameters, so that conditions can refer to it.
+func typedFunParams(ret, body string) string {
+	return "access(all) fun main(i: Int, j: Int, b: Bool, c: Bool, o: Int?, n: Int?, s: String, t: String, arr: [Int], d: {String: Int}, st: S, fx: UFix64, u: UInt8, w: Word8, any: AnyStruct): " + ret + " {\n" + body + "\n}\n"
 }
 
 // TypedStatementBodies: function bodies (after the variable pool) exercising every statement form.
@@ -282,7 +287,6 @@ func TypedStatementBodies() []string {
 		"    let addr: Address = 0x1\n    s = addr.toString()",
 		"    let x = \"\\(i) \\(b) \\(s) \\(fx) \\(o ?? 0)\"\n    s = x",
 		"    assert(i > 0, message: \"must be positive\")\n    if i > 100 { panic(\"too big\") }",
-		"    pre { true }\n    i = 1",
 	}
 }
 
@@ -451,7 +455,7 @@ func TypedPrograms(cfg Config, yield func(Program)) {
 					emit(typedFun("Int", "    if "+e+" { return 1 }\n    return 0"), fam, "if:Bool")
 					emit(typedFun("Int", "    while "+e+" { i = i + 1\n if i > 3 { break } }\n    return i"), fam, "while:Bool")
 					if si == 0 {
-						emit(typedFun("Int", "    pre { "+e+": \"cond\" }\n    post { "+e+" }\n    return i"), fam, "condition:Bool")
+						emit(typedFunParams("Int", "    pre { "+e+": \"cond\" }\n    post { "+e+" }\n    return i"), fam, "condition:Bool")
 					}
 				}
 				if ty == "[Int]" {
@@ -482,5 +486,55 @@ func TypedPrograms(cfg Config, yield func(Program)) {
 func AllTyped(cfg Config) []Program {
 	var out []Program
 	TypedPrograms(cfg, func(p Program) { out = append(out, p) })
+	return out
+}
+
+// PlainTypedPrograms: type-correct programs that use no nominal type (no prelude).
+func PlainTypedPrograms() []Program {
+	const vars = `
+    var i: Int = 1
+    var j: Int = 2
+    var b: Bool = true
+    var c: Bool = false
+    var o: Int? = 3
+    var n: Int? = nil
+    var s: String = "x"
+    var t: String = "y"
+    var arr: [Int] = [1, 2, 3]
+    var d: {String: Int} = {"a": 1}
+    var fx: UFix64 = 1.5
+    var u: UInt8 = 200
+    var w: Word8 = 250
+    var any: AnyStruct = 1
+`
+	var out []Program
+	uses := func(e string) bool {
+		for _, w := range []string{"st", "S(", "Color", "helper", "pureHelper", "Type<", "fun "} {
+			if strings.Contains(e, w) {
+				return true
+			}
+		}
+		return false
+	}
+	d1 := TypedExprs()
+	for _, ty := range typedTypeOrder {
+		if ty == "S" {
+			continue
+		}
+		for _, e := range d1[ty] {
+			if uses(e) {
+				continue
+			}
+			out = append(out, Program{Src: "access(all) fun main(): " + ty + " {" + vars + "    return " + e + "\n}\n", Family: "plain-expr", Shape: ty})
+		}
+	}
+	for _, body := range []string{
+		"    if b { i = i + 1 } else { i = 2 }", "    while i < 10 { i = i + 1\n if i == 5 { continue }\n if i > 7 { break } }",
+		"    for x in arr { i = i + x }", "    for k in d.keys { i = i + d[k]! }", "    switch i { case 1: j = 10\n default: j = 30 }",
+		"    if let x = o { i = x } else { i = 0 }", "    arr[0] = i\n    d[s] = j\n    i <-> j", "    let x = \"\\(i) \\(s)\"\n    s = x",
+		"    guard let x = o else { return }\n    i = x", "    let p = /storage/foo\n    s = p.toString()",
+	} {
+		out = append(out, Program{Src: "access(all) fun main() {" + vars + body + "\n}\n", Family: "plain-stmt", Shape: "stmt"})
+	}
 	return out
 }
